@@ -81,6 +81,7 @@ LfdaStep(ev) ==
                             {"C09.lfda_components_are_leading_generalised_eigenvectors",
                              "C09.lfda_local_scale_is_kth_nearest_same_class_neighbour"})
        ELSE IF dev = "witness" THEN R({}, {"X09.lfda_deviation_witness_rejected"})
+       ELSE IF dev = "nogap" THEN R({}, {"X09.lfda_no_eigen_gap"})       \* (the retained directions are not determined)
        ELSE R({"C09.lfda_components_are_leading_generalised_eigenvectors"},
               {"C09.lfda_components_are_leading_generalised_eigenvectors"})
 
